@@ -22,6 +22,7 @@ props = ['C%02d' % i for i in range(1, 21)]
 env = dict(os.environ, GOFLAGS='-mod=mod', GOPROXY='off', GOSUMDB='off', GOTOOLCHAIN='local', VERIF_BIN=binary)
 env.pop('GOWORK', None)
 jobs = []
+crashes = []
 for d in sorted(glob.glob('/verif/seeded/C*-*')):
     n = os.path.basename(d); t = n[:3]
     try: t = json.load(open(d + '/meta.json')).get('retargeted', t)
@@ -56,6 +57,9 @@ def run(job):
             r = subprocess.run('/verif/check %s quick' % p, shell=True, capture_output=True, text=True, env=dict(env, VERIF_REPO=d, VERIF_DIR=d + '/.vo'))
             if r.returncode != 0:
                 fired[p] = [l.strip()[:260] for l in r.stdout.splitlines() if l.startswith('  VIOLATED') or l.startswith('  UNDECIDED')][:3]
+                if not fired[p]:
+                    # a non-zero exit without a report line is a crash of the checker, not a report
+                    crashes.append((name, p, (r.stderr or r.stdout)[-300:]))
         return job, fired, None
     except subprocess.CalledProcessError as e:
         return job, {}, 'apply failed: ' + (e.stderr or b'').decode()[-200:]
@@ -87,6 +91,8 @@ with ThreadPoolExecutor(14) as ex:
             print('FALSE ALARM', name, sorted(fired)); bad += 1
             for p, ls in fired.items():
                 for l in ls: print('     ', l)
+for name, p, tail in crashes:
+    print('CHECK CRASHED', p, 'on', name, ':', tail.replace('\n', ' | ')[-200:]); bad += 1
 print('jobs %d, discrepancies %d' % (len(jobs), bad))
 
 if write and allp and not only:
